@@ -19,3 +19,14 @@ for f in sorted(glob.glob(V + "/seeded/*/meta.json")):
     caught = ", ".join("%s%s" % (k, "" if r["caught"] else " (MISSED, exit %s)" % r["exit"]) for k, r in v.get("checks", {}).items())
     print("| %s | %s | %s | %s | %s | %s |" % (os.path.basename(os.path.dirname(f)), m.get("property", ""), str(m.get("summary", ""))[:160].replace("|", "/"),
           str(m.get("needs_to_manifest", ""))[:160].replace("|", "/"), "yes" if v.get("confirmed") else "NO", caught))
+
+if "--benign" in __import__("sys").argv:
+    print()
+    print("| property-preserving change | area | what it changes | applies / sanity / suite | checks run against it |")
+    print("|---|---|---|---|---|")
+    for f in sorted(glob.glob(V + "/benign/*/meta.json")):
+        m = json.load(open(f)); v = m.get("verification", {})
+        res = ", ".join("%s %s" % (k, "silent" if r.get("silent") else "ALARM (exit %s)" % r.get("exit")) for k, r in v.get("checks", {}).items()) or v.get("error", "")[:80]
+        note = m.get("judgement", "")
+        print("| %s | %s | %s | %s / %s / %s | %s%s |" % (os.path.basename(os.path.dirname(f)), m.get("area", ""), str(m.get("summary", ""))[:220].replace("|", "/"),
+              "yes" if v.get("applies") else "NO", v.get("sanity_exit"), v.get("suite_ok"), res, (" — " + note) if note else ""))
